@@ -5,4 +5,5 @@ import "verifharness/internal/transfer"
 func init() {
 	replayers["transfer"] = transfer.Replay
 	replayers["transferrec"] = transfer.RecCase
+	replayers["transferfault"] = transfer.ReplayFault
 }
